@@ -16,7 +16,7 @@ type Env struct {
 	old    *State
 	ctrPre *Term
 	locals func(name string) (*Sym, bool)
-	lets   map[string]*Node
+	lets   map[string]*LetDef
 	depth  int
 }
 
@@ -217,13 +217,13 @@ func (e *Env) ident(name string, hint *Sym) *Sym {
 		return v
 	}
 	if e.lets != nil {
-		if ln, ok := e.lets[name]; ok {
+		if ln, ok := e.lets[name]; ok && len(ln.Params) == 0 {
 			if e.depth > 20 {
 				panic("recursive let " + name)
 			}
 			ne := *e
 			ne.depth++
-			return ne.eval(ln, hint)
+			return ne.eval(ln.Expr, hint)
 		}
 	}
 	if e.locals != nil {
@@ -529,7 +529,7 @@ func (e *Env) index(n *Node) *Sym {
 		case KSlice:
 			el := x.T.Underlying().(*types.Slice).Elem()
 			i := e.eval(n.Args[1], &Sym{T: types.Typ[types.Int], L: []*Term{mkBVu(0, 64)}}).term()
-			lv := &LVal{Root: RElem, Ref: x.L[0], Idx: bvBin("bvadd", x.L[1], i), RootT: el, T: el}
+			lv := &LVal{Root: RElem, Ref: x.L[0], Idx: elemIndex(x.L[1], i), RootT: el, T: el}
 			return e.x.hp.load(e.st, lv)
 		case KArr:
 			el := x.T.Underlying().(*types.Array).Elem()
@@ -686,6 +686,26 @@ func (e *Env) call(n *Node, hint *Sym) *Sym {
 			}
 		}
 		panic("no local " + n.Args[0].Name)
+	}
+	if e.lets != nil {
+		if ld, ok := e.lets[name]; ok && len(ld.Params) > 0 {
+			if len(ld.Params) != len(n.Args) {
+				panic("macro " + name + ": wrong number of arguments")
+			}
+			if e.depth > 20 {
+				panic("recursive let " + name)
+			}
+			ne := *e
+			ne.depth++
+			ne.vars = map[string]*Sym{}
+			for k, v := range e.vars {
+				ne.vars[k] = v
+			}
+			for i, p := range ld.Params {
+				ne.vars[p] = e.eval(n.Args[i], nil)
+			}
+			return ne.eval(ld.Expr, hint)
+		}
 	}
 	fn, ok := e.x.sp.Fns[name]
 	if !ok {
